@@ -8,14 +8,18 @@ CFG = dict(
           "C18_stop_dead (after Stop every quiescent state has a dead run loop and dead writer goroutines) and C18_run_alive (the run loop "
           "ends only by Stop or a failed shared Read, never by a Cancel(key)) and C18_after_cancel_fresh (once Cancel(k) is processed every envelope "
           "with key k that the run loop reads, the very next one included, is routed to an instance created after the Cancel - announced, "
-          "carrying the key - never to the cancelled one) in coq/Props/C18.v, "
+          "carrying the key - never to the cancelled one); liveness beyond the quiescent-state form: C18_terminates (a measure every internal step "
+          "lowers: no internal continuation of s is longer than mu s), C18_maximal_exists, C18_delivered (at the end of ANY maximal internal "
+          "continuation from a reachable state, not stopped: every envelope taken from the shared transport for an instance that is not cancelled "
+          "and whose consumer is reading has been handed to it, in order; everything that arrived has been taken unless the run loop is parked "
+          "in the hand-off to an instance whose consumer is not reading) in coq/Props/C18.v, "
           "over all label sequences of the small-step model coq/Model/Demux.v (unbounded keys, envelopes, calls; any interleaving); "
           "the model is run lock-step against the real goat.Demux on every run.",
     props="Props/C18.v",
     theorems=["C18_route_exact", "C18_route_live", "C18_route_key", "C18_one_instance", "C18_route_uncancelled",
               "C18_announce_once", "C18_announce_first_use", "C18_write_exact", "C18_calls", "C18_no_crash",
               "C18_cancel_unblocks", "C18_cancel_settles", "C18_cancel_errors", "C18_stop_dead", "C18_run_alive",
-              "C18_after_cancel_fresh"],
+              "C18_after_cancel_fresh", "C18_terminates", "C18_maximal_exists", "C18_delivered"],
     imports=["Model.Demux", "Check.C18c"],
     case_type="c18case",
     find_bad_from="find_bad_from",
